@@ -83,10 +83,35 @@ def shard(arg):
     return rep
 
 
+def shard_named(arg):
+    """named textbook states written as graph-state circuit + the same Clifford on every qubit, on every configuration"""
+    n, seed, part, parts = arg
+    from gen import named
+    rep = fw.Report()
+    for i, (label, gid, w, gens, circ) in enumerate(named.named_subjects(n)):
+        if i % parts != part:
+            continue
+        for name in [c[1] for c in coupling.CONFIGS if c[0] == n]:
+            case = {"n": n, "connectivity": name, "ops": circ, "format": "circuit"}
+            nt, tabs = classify(case)
+            rep.case(nt, dict(case, state=label) if (i % 70 == 9 and name == "all") else None)
+            rep.count("config", f"{n}-{name}")
+            rep.count("named_states", "n=%d" % n)
+            for key, msg, extra in check_compress(case):
+                rep.fail(key, case, msg + f" [named state {label}]", **extra)
+    return rep
+
+
+def shard_any(arg):
+    if arg[0] == "named":
+        return shard_named(arg[1:])
+    return shard(arg)
+
+
 def run(ctx):
     per = 100 if ctx.quick else 6000
-    args = [(ctx.seed * 1000 + i, per, ctx.deadline) for i in range(16)]
-    rep = fw.run_shards(ctx, "props.c07", "shard", args)
+    args = [("named", n, ctx.seed, part, {2: 1, 3: 1, 4: 2, 5: 6, 6: 16}[n]) for n in (6, 5, 4, 3, 2) for part in range({2: 1, 3: 1, 4: 2, 5: 6, 6: 16}[n])] + [(ctx.seed * 1000 + i, per, ctx.deadline) for i in range(16)]
+    rep = fw.run_shards(ctx, "props.c07", "shard_any", args)
     rep.extra["classes_hit"] = {k[len("orbits_n"):]: len(v) for k, v in rep.hist.items() if k.startswith("orbits_n")}
     for k in [k for k in rep.hist if k.startswith("orbits_n")]:
         del rep.hist[k]
